@@ -46,6 +46,7 @@ import CtyModel.Lemmas.UnifyTopo
 import CtyModel.Lemmas.UnifyUnsafe
 import CtyModel.Lemmas.UnifyFlat
 import CtyModel.Lemmas.d09Fuel
+import CtyModel.Lemmas.d09Fuel2
 namespace CtyModel
 namespace C09
 open Convert Ty Unify
@@ -851,6 +852,26 @@ theorem unify_result_reachable_flat_std (uns : Bool) (ts : List Ty) (t : Ty)
 example : unifyTy false fuelWitnessTys = unifyTyF 6 false fuelWitnessTys := (fuel_enough false _ 6 (by decide)).1.symm
 example : unifyTy true [.map (.tuple [.string, .bool]), .map (.tuple [.string, .bool])] = some (.map (.tuple [.string, .bool])) :=
   unify_equal_types_std true _ 2 (by decide) (by decide) (by decide)
+
+/-- The fuel of the FULL model (unified type and conversions): two activations always suffice —
+`unify` re-enters itself with its conversions used only from unifyTuplesAsList / unifyObjectsAsMaps,
+on a list of list (map) types and placeholders, where the next activation never re-enters.  So
+every clause above that is stated "for every fuel" of `unifyF` is a statement about the ONE outcome
+`unifyF E 2 uns types` (the drivers run fuel 4), for every environment, mode and list of types. -/
+theorem unify_fuel_two (E : Env) (n : Nat) (uns : Bool) (types : List Ty) :
+    unifyF E (n + 2) uns types = unifyF E 2 uns types :=
+  unifyF_two E n uns types
+
+/-- e.g. `nil_iff_equal_partial` and `convs_length` read without fuel -/
+theorem nil_iff_equal_fuel_free (E : Env) (n : Nat) (uns : Bool) (types : List Ty) (t : Ty) (cs : Convs)
+    (hw : ∀ ty ∈ types, ty.wf = true) (h : unifyF E (n + 2) uns types = .ok (some (t, cs))) :
+    unifyF E 2 uns types = .ok (some (t, cs)) ∧ cs.length = types.length ∧
+      nilIffEqual t types (nilFlags cs) = true := by
+  rw [unify_fuel_two] at h
+  exact ⟨h, convs_length E 2 uns types t cs h, nil_iff_equal_partial E 2 uns types t cs hw h⟩
+
+example : unifyF (Env.std Env.simple) 4 true [.list .string, .tuple [.string], .dyn] =
+    unifyF (Env.std Env.simple) 2 true [.list .string, .tuple [.string], .dyn] := unify_fuel_two _ 2 _ _
 
 /-! ## Absent iff equal, UNSAFE mode, placeholder members present
 
